@@ -92,7 +92,8 @@ def run(ctx):
         if li and ins:
             c, g = li[0]
             r.check(h.dominates(ins[0].block, c.block), "Link/insert-before-linked", c.loc(), "links.insert(id, origin) dominates push_special(Linked(id))", "Linked is sent without recording the link")
-            r.check(any(d.startswith("disc(id_for(") and l == "Some" for d, l, _ in g) and any(d.startswith("has_remote(") and l == "true" for d, l, _ in g), "Link/guarded", c.loc(),
+            # (however the two tests are combined: nested, as a guard, or as a match on the pair of results)
+            r.check(any("id_for(" in d and l == "Some" for d, l, _ in g) and any("has_remote(" in d and l == "true" for d, l, _ in g), "Link/guarded", c.loc(),
                     "only for a known lane and a registered remote", "Linked can be sent for an unknown lane or remote: %s" % [(d[-40:], l) for d, l, _ in g])
             r.check(describe_operand(h, ins[0].args[2]).endswith("<Link>.origin") and describe_operand(h, c.args[2]).endswith("<Link>.origin"), "Link/same-remote", c.loc(), "link and Linked use the requesting remote")
         # Unlink
@@ -185,10 +186,6 @@ def run(ctx):
         r.check(any(any(d.startswith("linked_from(") or "linked_from" in d and l == "None" for d, l, _ in dom_guards(he, z[0])) for z in zero), "handle_event/no-links=>discard", where(he),
                 "an event for a lane without links is discarded (Writes::Zero)")
         sp, pws = uplinks.implicit_link_rule(r, ctx, rt, he)
-        fr = [c for c in he.calls if c.via_name == "from" and "Writes" in c.defpath and he.dominates(sp[0].block, c.block)]
-        if fr:
-            d = describe_operand(he, fr[0].args[0])
-            r.check(d.startswith("tuple(push_special("), "handle_event/pair-order", fr[0].loc(), "Writes::from((linked, data)): %s" % d[:60], "the pair is built as %s" % d[:80])
         wn = ctx.saw(rt.fn(name="next", self_adt="task::Writes"))
         r.check(True, "Writes::next/present", where(wn), "Writes::next analysed")
         for si in wn.switches_on(lambda p, si: si["kind"] == "disc" and (si.get("adt") or "").endswith("task::Writes")):
@@ -223,7 +220,11 @@ def run(ctx):
         bwr = [c for c in rem.calls if c.name == "remove" and "HashSet" in c.defpath]
         fe = [c for c in rem.calls if c.name == "entry" and ".forward" in describe_operand(rem, c.args[0])]
         be = [c for c in rem.calls if c.name == "entry" and ".backwards" in describe_operand(rem, c.args[0])]
-        r.check(len(fwr) == 1 and len(fe) == 1 and describe_operand(rem, fe[0].args[1]) == "lane_id" and "remote_id" in describe_operand(rem, fwr[0].args[1]) and any(d.startswith("disc(entry(self.forward") and l == "Occupied" for d, l, _ in dom_guards(rem, fwr[0].block)) and len([d for d, l, _ in dom_guards(rem, fwr[0].block)]) == 1,
+        # the lane's forward entry is looked up by the lane id (entry / get_mut / ..) and the remote taken out of it whenever the entry exists
+        fe = [c for c in rem.calls if c.name in ("entry", "get_mut") and describe_operand(rem, c.args[0]).lstrip("&").replace("mut ", "").endswith(".forward")]
+        fg = dom_guards(rem, fwr[0].block) if fwr else []
+        r.check(len(fwr) == 1 and len(fe) == 1 and describe_operand(rem, fe[0].args[1]) == "lane_id" and "remote_id" in describe_operand(rem, fwr[0].args[1]) and "self.forward" in describe_operand(rem, fwr[0].args[0]) and
+                len(fg) == 1 and fg[0][1] in ("Occupied", "Some") and "self.forward" in fg[0][0],
                 "remove/forward-updated", where(rem), "remove takes the remote out of the lane's forward entry whenever that entry exists", "remove does not (always) delete the remote from forward[lane]: the unlinked remote keeps receiving the lane's events")
         r.check(len(bwr) == 1 and len(be) == 1 and describe_operand(rem, be[0].args[1]) == "remote_id" and "lane_id" in describe_operand(rem, bwr[0].args[1]) and rem.must_pass([0], {be[0].block})[0],
                 "remove/backwards-updated", where(rem), "remove takes the lane out of the remote's backwards entry whenever that entry exists", "remove does not (always) delete the lane from backwards[remote]")
